@@ -95,7 +95,52 @@ def runOneShot (op : String) (f : Fields) : String :=
     | .error _ => "-"
   s!"{verdictOf r} used={used} {sinkRepr snk (f.get "full" == "1")}"
 
-/-- raw LZMA decoder histories: `ops=d:<hex>;r;rs:none;rs:<n>` -/
+/-- the decoder state in the byte layout of the `verif_state_bytes` hook: carry-over length,
+lc/lp/pb, expected size, every probability table (u16 LE) in the hook's order, state, rep[0..4] (u64 LE) -/
+def crcBytes (c : UInt32) (bs : Bytes) : UInt32 := bs.foldl crc32Step c
+
+@[inline] def crcU16 (c : UInt32) (n : Nat) : UInt32 :=
+  crc32Step (crc32Step c (UInt8.ofNat (n % 256))) (UInt8.ofNat (n / 256 % 256))
+
+def crcArr (c : UInt32) (a : Array Nat) : UInt32 := a.foldl crcU16 c
+
+def crcLen (c : UInt32) (l : LenProbs) : UInt32 :=
+  crcArr (crcArr (crcArr (crcU16 (crcU16 c l.choice) l.choice2) l.low) l.mid) l.high
+
+/-- number of bytes of the state layout and its running CRC, started from `c0` after `pre` bytes -/
+def stateCrc (c : UInt32) (s : DState) : UInt32 × Nat :=
+  let hdr : Bytes := [UInt8.ofNat s.partialBuf.length, UInt8.ofNat s.props.lc, UInt8.ofNat s.props.lp, UInt8.ofNat s.props.pb] ++
+    (match s.unpackedSize with
+     | none => List.replicate 9 0
+     | some n => 1 :: leBytes 8 n)
+  let c := crcBytes c hdr
+  let p := s.probs
+  let c := crcArr c p.lit
+  let c := crcArr c p.posSlot
+  let c := crcArr c p.align
+  let c := crcArr c p.posDec
+  let c := crcArr c p.isMatch
+  let c := crcArr c p.isRep
+  let c := crcArr c p.isRepG0
+  let c := crcArr c p.isRepG1
+  let c := crcArr c p.isRepG2
+  let c := crcArr c p.isRep0Long
+  let c := crcLen c p.len
+  let c := crcLen c p.repLen
+  let tail : Bytes := [UInt8.ofNat s.state] ++ leBytes 8 s.rep0 ++ leBytes 8 s.rep1 ++ leBytes 8 s.rep2 ++ leBytes 8 s.rep3
+  let c := crcBytes c tail
+  let nprobs := p.lit.size + p.posSlot.size + p.align.size + p.posDec.size + p.isMatch.size + p.isRep.size +
+    p.isRepG0.size + p.isRepG1.size + p.isRepG2.size + p.isRep0Long.size +
+    2 * (2 + p.len.low.size + p.len.mid.size + p.len.high.size)
+  (c, hdr.length + 2 * nprobs + tail.length)
+
+def stReprOf (pre : Bytes) (s : DState) : String :=
+  let (c, n) := stateCrc (crcBytes 0xFFFFFFFF pre) s
+  s!"st:{pre.length + n}:{hex8 ((c ^^^ 0xFFFFFFFF).toNat)}"
+
+def stRepr (bs : Bytes) : String := s!"st:{bs.length}:{hex8 (crc32 bs)}"
+
+/-- raw LZMA decoder histories: `ops=d:<hex>;r;rs:none;rs:<n>;st` -/
 def runRawLzma (f : Fields) : String :=
   let params : LzmaParams :=
     { props := { lc := f.nat "lc", lp := f.nat "lp", pb := f.nat "pb" }
@@ -115,6 +160,7 @@ def runRawLzma (f : Fields) : String :=
             (d', false, acc ++ [s!"ok:{rd.rem.length - rd'.rem.length}:{outRepr snk.out.toList}"])
           | (snk, .error e) =>
             (d, true, acc ++ [s!"{verdictOf (Except.error e : Except Err Unit)}:-:{outRepr snk.out.toList}"])
+      | ["st"] => (d, dirty, acc ++ [if dirty then "unspec" else stReprOf [] d.state])
       | ["r"] =>
         match d.reset none with
         | .ok d' => (d', false, acc ++ ["r"])
@@ -142,6 +188,7 @@ def runRawLzma2 (f : Fields) : String :=
             (d', false, acc ++ [s!"ok:{rd.rem.length - rd'.rem.length}:{outRepr snk.out.toList}"])
           | (snk, .error e) =>
             (d, true, acc ++ [s!"{verdictOf (Except.error e : Except Err Unit)}:-:{outRepr snk.out.toList}"])
+      | ["st"] => (d, dirty, acc ++ [if dirty then "unspec" else stReprOf [] d.lzmaState])
       | ["r"] =>
         match d.reset with
         | .ok d' => (d', false, acc ++ ["r"])
@@ -174,6 +221,14 @@ def runStream (f : Fields) : String :=
     | ["f"] =>
       match st.flush snk with
       | (snk', r) => (st, snk', acc ++ [s!"f{verdictOf r}"], false)
+    | ["st"] =>
+      let r := match st.state with
+        | none => "st:none"
+        | some .header => stRepr ([0, UInt8.ofNat st.tmp.length] ++ st.tmp)
+        | some (.data rs) =>
+          stReprOf ([1, UInt8.ofNat st.tmp.length] ++ st.tmp ++ leBytes 4 rs.range ++ leBytes 4 rs.code ++
+            leBytes 8 rs.output.len) rs.decoder
+      (st, snk, acc ++ [r], false)
     | ["fin"] =>
       match st.finish snk with
       | (snk', r) => (st, snk', acc ++ [s!"fin{verdictOf r}"], true)
